@@ -1,3 +1,4 @@
 pub mod dewey;
 pub mod plist;
 pub mod pattern;
+pub mod summary;
